@@ -139,7 +139,7 @@ def check(mod, tier: str, seed: int, *, replay: str | None = None) -> int:
         printed = 0
         if violations and replay is None:
             rep_dir.mkdir(parents=True, exist_ok=True)
-        for tid, fl in violations:
+        for tid, fl in violations[:25]:
             if replay is None:
                 path = rep_dir / f"{tier}-{seed}-{tid}.json"
                 path.write_text(json.dumps({"property": pid, "failing": [[l, c] for l, c in fl],
@@ -151,7 +151,7 @@ def check(mod, tier: str, seed: int, *, replay: str | None = None) -> int:
                 print(f"VIOLATION property={pid} replay={path}  clauses={','.join(clauses)}")
                 printed += 1
         if len(violations) > printed:
-            print(f"... {len(violations) - printed} more violating traces (replays written)")
+            print(f"... {len(violations) - printed} more violating traces (first 25 replays written)")
         for kf in known:
             if kf["id"] in known_hit:
                 print(f"KNOWN-FINDING: property={pid} {kf['id']} {kf['what']} ({known_hit[kf['id']]} traces)")
